@@ -151,6 +151,22 @@ def _norm(v):
     return snap(v)
 
 
+def _ambient():
+    """Interpreter-level settings a library call has no business changing (they are shared by every later call of
+    the process, like a module table): the arithmetic context of `decimal` as seen by the calling thread, and the
+    recursion limit.  (Context flags are left out: any Decimal operation sets them.)"""
+    import decimal
+    import sys
+    c = decimal.getcontext()
+    d = decimal.DefaultContext
+    return {
+        'interpreter.decimal_context': (c.prec, c.rounding, c.Emin, c.Emax, c.capitals, c.clamp,
+                                        sorted(str(t) for t, on in c.traps.items() if on)),
+        'interpreter.decimal_default_context': (d.prec, d.rounding, d.Emin, d.Emax, d.capitals, d.clamp),
+        'interpreter.recursion_limit': sys.getrecursionlimit(),
+    }
+
+
 def module_digest(mods, per_name=False):
     """blake2b digest of every public upper-case data binding of every module.
     mods: dict name -> module object."""
@@ -170,6 +186,8 @@ def module_digest(mods, per_name=False):
                 # never let the digest itself fail
                 b = ('unpicklable:' + type(v).__name__).encode()
             out[mn + '.' + k] = hashlib.blake2b(b, digest_size=8).hexdigest()
+    for k, v in _ambient().items():
+        out[k] = hashlib.blake2b(pickle.dumps(v, 4), digest_size=8).hexdigest()
     if per_name:
         return out
     h = hashlib.blake2b(digest_size=16)
